@@ -5,7 +5,7 @@ import ast
 from report import AnalysisError
 from pyfront import (Repo, CFG, canon, guard_literals, attr_accesses, literals,
                      qualname, calls_in, enclosing_func, TK)
-from pyutil import (params, deep_subst, find_calls, returns, lit_fmt, rel,
+from pyutil import (owners, params, deep_subst, find_calls, returns, lit_fmt, rel,
                     name_of, kwarg)
 from dtable import Walker
 import exprnf as X
@@ -44,6 +44,10 @@ def r1_writers(L, repo):
             P = params(fd)[1]
             ok = kind == "store" and val == P
             want = "<trx>.running = %s" % P
+        elif owners(m, n) <= {"Transceiver.power_event_handler"}:
+            # a helper of the power event handler introduced later: the stored value must be a parameter fed by it
+            ok = kind == "store"
+            want = "<trx>.running = <the handler's argument>"
         else:
             ok, want = False, "no writer outside Transceiver.__init__ / power_event_handler"
         ok_sites += ok
@@ -66,8 +70,9 @@ def r1_writers(L, repo):
                      q == "CLCKGen.__init__", n.lineno)
     for m, c in muts:
         q = qualname(c)
+        own = owners(m, c)
         L.ob("C12.R1", m.rel, q, "mutation of the clock link list `%s`" % canon(c)[:50],
-             "only Transceiver.power_event_handler", q, q == "Transceiver.power_event_handler", c.lineno)
+             "only Transceiver.power_event_handler", sorted(own), own <= {"Transceiver.power_event_handler"}, c.lineno)
     L.floor("C12.R1", "clck_links mutations", len(muts), 2)
     # callers of power_event_handler
     n_call = 0
@@ -76,8 +81,9 @@ def r1_writers(L, repo):
             if isinstance(c.func, ast.Attribute) and c.func.attr == "power_event_handler":
                 n_call += 1
                 q = qualname(c)
+                own = owners(m, c)
                 L.ob("C12.R4", m.rel, q, "caller of power_event_handler `%s`" % canon(c)[:60],
-                     "only CTRLInterfaceTRX.parse_cmd", q, q == "CTRLInterfaceTRX.parse_cmd", c.lineno)
+                     "only CTRLInterfaceTRX.parse_cmd", sorted(own), own <= {"CTRLInterfaceTRX.parse_cmd"}, c.lineno)
     L.floor("C12.R4", "power_event_handler call sites", n_call, 2)
 
 
@@ -217,8 +223,13 @@ def r3_clock_table(L, repo):
         raise AnalysisError("power_event_handler: too many branch atoms: %s" % atoms)
     atoms, rows = W.table(fd.body, atoms)
     n = 0
+    from pyutil import ctor_invariants
+    invs = ctor_invariants(repo, ci)
     for vals, ev in sorted(rows.items()):
         a = dict(zip(atoms, vals))
+        # rows that contradict what the constructor guarantees (e.g. a child never owns a clock generator) cannot occur
+        if any(all(t in a and a[t] == p for t, p in inv) for inv in invs):
+            continue
         want = []
         if not a[A_C]:
             # link update first ...
@@ -310,16 +321,53 @@ def r3b_clckgen_running(L, repo):
             a[A_T], extra), want, got)
 
 
-def r4_power_cmds(L, repo):
+def r4_power_cmds(L, repo, force_shape=False):
     ci, fd = repo.need_method("ctrl_if_trx", "CTRLInterfaceTRX", "parse_cmd")
     FT = rel("ctrl_if_trx")
     fn = "CTRLInterfaceTRX.parse_cmd"
     L.unit(FT)
     L.fn(FT, fn)
     REQ = params(fd)[1]
+    # (a) the complete decision table of the two power commands over the flags the handler may test, obtained by
+    # folding the handler's source (helpers included) for every flag combination
+    folded = True
+    try:
+        if force_shape:
+            raise AnalysisError("structural attempt")
+        from cmdfold import fold_parse_cmd
+        import itertools
+        nrow = 0
+        for running, ready in itertools.product((False, True), repeat=2):
+            f = fold_parse_cmd(repo, ["POWERON"], {"running": running, "ready": ready})
+            ok_ = (not running) and ready
+            want = (0, [("power_event_handler", (), (("poweron", True),))]) if ok_ else (-1, [])
+            got = (f.ret if f.raised is None else "raises %s" % f.raised,
+                   [c_ for c_ in f.calls if c_[0] == "power_event_handler"] if not (len(f.calls) and any(
+                       c_[0] == "power_event_handler" and c_[1] == (True,) for c_ in f.calls)) else
+                   [("power_event_handler", (), (("poweron", True),))])
+            L.require("C12.R4", FT, fn, "POWERON with running=%d ready=%d: status and power event" % (running, ready), want, got, line=fd.lineno)
+            f = fold_parse_cmd(repo, ["POWEROFF"], {"running": running, "ready": ready})
+            got = (f.ret if f.raised is None else "raises %s" % f.raised,
+                   [("power_event_handler", (), (("poweron", False),))] if any(
+                       c_[0] == "power_event_handler" and (c_[1] == (False,) or c_[2] == (("poweron", False),)) for c_ in f.calls) and
+                   sum(1 for c_ in f.calls if c_[0] == "power_event_handler") == 1 else
+                   [c_ for c_ in f.calls if c_[0] == "power_event_handler"])
+            L.require("C12.R4", FT, fn, "POWEROFF with running=%d ready=%d: always succeeds with one power-off event" % (running, ready),
+                      (0, [("power_event_handler", (), (("poweron", False),))]), got, line=fd.lineno)
+            nrow += 2
+        # a command with arguments is not a power command
+        f = fold_parse_cmd(repo, ["POWERON", "1"], {"running": False, "ready": True})
+        L.require("C12.R4", FT, fn, "POWERON with an argument triggers no power event", [], [c_ for c_ in f.calls if c_[0] == "power_event_handler"])
+        L.floor("C12.R4", "power command rows folded", nrow, 8)
+    except AnalysisError as e:
+        folded = False
+        if not force_shape:
+            L.extra["c12_r4_fold"] = "not folded: %s" % str(e)[:100]
     cfg = CFG(fd)
     calls = find_calls(fd, attr="power_event_handler")
     seen = {}
+    if folded:
+        calls = []          # the shape rules below are the fallback for code the evaluator cannot fold
     for c in calls:
         arg = kwarg(c, "poweron", 0)
         val = canon(arg) if arg is not None else None
@@ -340,11 +388,14 @@ def r4_power_cmds(L, repo):
              lit_fmt(want) if want else "constant True/False", lit_fmt(pos), want is not None and pos == want, c.lineno)
         L.require("C12.R4", FT, fn, "power event goes to the transceiver owning the control interface",
                   "self.trx", canon(c.func.value), line=c.lineno)
-    L.require("C12.R4", FT, fn, "one POWERON and one POWEROFF power event", {"True": 1, "False": 1}, seen)
+    if not folded:
+        L.require("C12.R4", FT, fn, "one POWERON and one POWEROFF power event", {"True": 1, "False": 1}, seen)
     # decision table of the POWERON branch: status as function of (running, ready)
     br = [n for n in ast.walk(fd) if isinstance(n, ast.If) and
           literals(n.test, True) == {("self.verify_cmd(%s, 'POWERON', 0)" % REQ, True)}]
-    if len(br) == 1:
+    if folded:
+        pass
+    elif len(br) == 1:
         def ev(st):
             if isinstance(st, ast.Return):
                 return ("ret", canon(st.value))
@@ -446,7 +497,7 @@ def _fold_ports(L, repo, ci, init, fn):
     return True
 
 
-def r5_ports(L, repo):
+def r5_ports(L, repo, force_shape=False):
     ci, init = repo.need_method("transceiver", "Transceiver", "__init__")
     fn = "Transceiver.__init__"
     L.fn(F, fn)
@@ -483,8 +534,9 @@ def r5_ports(L, repo):
              "Base.__init__(self, *args)", [canon(c) for c in base], ok, m4.lineno)
     # (a) the port plan decided by folding the constructor for witness configurations (base ports, child indexes,
     # with / without a clock generator), interface constructors as capturing oracles
-    folded = _fold_ports(L, repo, ci, init, fn)
-    L.extra["c12_port_plan_folded"] = folded
+    folded = False if force_shape else _fold_ports(L, repo, ci, init, fn)
+    if not force_shape:
+        L.extra["c12_port_plan_folded"] = folded
     if folded:
         return
     # (b) fallback: structural rules on the constructor's source
@@ -628,5 +680,9 @@ def run(L, tier):
     L.stage(r3b_clckgen_running, L, repo)
     L.stage(r4_power_cmds, L, repo)
     L.stage(r5_ports, L, repo)
+    if "c12_r4_fold" not in L.extra:
+        L.structural("C12.R4 guard sets and decision table of the POWERON / POWEROFF branches", r4_power_cmds, L, repo, True)
+    if L.extra.get("c12_port_plan_folded"):
+        L.structural("C12.R5 linear normal forms of the port expressions in Transceiver.__init__", r5_ports, L, repo, True)
     L.stage(r6_wiring, L, repo)
     L.stage(r7_trx_def, L, repo)
